@@ -154,6 +154,25 @@ impl Router {
     }
 
     fn on_request(&self, request: Request) -> bool {
+        use std::panic::AssertUnwindSafe;
+
+        // a request must always be answered: if the handler panics, reply with an
+        // error instead of letting the worker thread die silently
+        let id = request.id.clone();
+        panic::catch_unwind(AssertUnwindSafe(|| self.handle_request(request))).unwrap_or_else(
+            |_| {
+                error!("panic while handling request {}", id);
+                self.respond(Response::new_err(
+                    id,
+                    ErrorCode::InternalError as i32,
+                    "error handling request".to_string(),
+                ));
+                false
+            },
+        )
+    }
+
+    fn handle_request(&self, request: Request) -> bool {
         if request.method == "shutdown" {
             self.respond(Response {
                 id: request.id.clone(),
